@@ -24,6 +24,8 @@ def pcm16(hexs):
     b = bytes.fromhex(hexs)
     return list(struct.unpack("<%dh" % (len(b) // 2), b))
 
+SURVEY_CFGS = ("mute=ffffffffffffffff zonly", "mvol=0 zonly", "mute=ffffffffffffffff zonly repos=13")
+
 def main():
     tier = sys.argv[1] if len(sys.argv) > 1 else "quick"
     replay = sys.argv[sys.argv.index("--replay") + 1] if "--replay" in sys.argv else None
@@ -48,6 +50,10 @@ def main():
     for (path, rate, fmt, frames, interp, sepv) in mods:
         rel = os.path.relpath(path, V.REPO)
         base = "%s\t%d\t%d\t%d\t%d\t" % (path, rate, fmt, frames, interp)
+        # half of the modules are rendered with a position-control call every few frames (the same calls in the full, solo, muted and
+        # separation runs): what the application set - mutes, master volume, separation - must hold across repositioning
+        repos = ("repos=%d " % rng.choice((3, 7, 11))) if (replay is None and rng.random() < 0.5) else (rp.get("repos", "") if replay else "")
+        base = base + repos
         r0 = V.run([drv], inp=base + "\n", env=env, timeout=600)
         if r0.returncode != 0:
             ck.violation({"path": rel, "rate": rate, "format": fmt, "frames": frames, "interp": interp, "broken": "sanitizer report / crash while rendering", "stderr": r0.stderr[-2000:]}, key="c14-crash"); continue
@@ -59,7 +65,7 @@ def main():
         if chn > (8 if tier == "quick" else 32):
             stats["skipped_many_channels"] += 1; continue
         stats["modules"] += 1
-        rep = {"path": rel, "rate": rate, "format": fmt, "frames": frames, "interp": interp, "sep": sepv}
+        rep = {"path": rel, "rate": rate, "format": fmt, "frames": frames, "interp": interp, "sep": sepv, "repos": repos}
         allmask = (1 << chn) - 1
         cfgs = ["mute=%x" % (allmask & ~(1 << c)) for c in range(chn)] + ["mute=%x" % allmask, "mvol=0", "sep=%d" % sepv, "sep=%d" % -sepv, "sep=0", "sep=100"]
         rr = V.run([drv], inp="".join(base + c + "\n" for c in cfgs), env=env, timeout=1200)
@@ -167,7 +173,7 @@ def main():
             sv += [f for f in files if any(t in os.path.basename(f).lower() for t in ("tremolo", "tremor", "nna", "volenv", "vol-env", "macro", "filter")) and f not in sv]
         lines = []
         for f in sv:
-            for cfg in ("mute=ffffffffffffffff zonly", "mvol=0 zonly"):
+            for cfg in SURVEY_CFGS:
                 lines.append("%s\t22050\t0\t%d\t1\t%s\n" % (f, 400 if tier == "quick" else 3000, cfg))
         rs = V.run([drv], inp="".join(lines), env=env, timeout=6000)
         blocks = rs.stdout.split("ENDRUN\n")
@@ -178,15 +184,15 @@ def main():
             stats["survey_runs"] = stats.get("survey_runs", 0) + 1; stats["survey_frames"] = stats.get("survey_frames", 0) + int(z[1])
             ck.count()
             if int(z[2]) != 0:
-                f = sv[j // 2]
-                ck.violation({"survey": True, "path": os.path.relpath(f, V.REPO), "config": "all channels muted" if j % 2 == 0 else "master volume 0",
-                              "what": "%s: %s samples are not silent, first in frame %s" % ("all channels muted" if j % 2 == 0 else "master volume 0", z[2], z[3]),
+                f = sv[j // len(SURVEY_CFGS)]; cname = ("all channels muted", "master volume 0", "all channels muted, a position-control call every 13 frames")[j % len(SURVEY_CFGS)]
+                ck.violation({"survey": True, "path": os.path.relpath(f, V.REPO), "config": cname,
+                              "what": "%s: %s samples are not silent, first in frame %s" % (cname, z[2], z[3]),
                               "rate": 22050, "format": 0, "frames": 400, "interp": 1,
                               "broken": "C14 silence clause on the implementation"}, key="c14:silence")
             else:
-                ck.nontrivial(("survey", sv[j // 2], j % 2))
+                ck.nontrivial(("survey", sv[j // len(SURVEY_CFGS)], j % len(SURVEY_CFGS)))
         if rs.returncode != 0:
-            ck.violation({"survey": True, "path": os.path.relpath(sv[min(len(blocks) - 1, len(lines) - 1) // 2], V.REPO), "broken": "sanitizer report / crash in the silence survey", "stderr": rs.stderr[-2000:]}, key="c14-crash")
+            ck.violation({"survey": True, "path": os.path.relpath(sv[min(len(blocks) - 1, len(lines) - 1) // len(SURVEY_CFGS)], V.REPO), "broken": "sanitizer report / crash in the silence survey", "stderr": rs.stderr[-2000:]}, key="c14-crash")
     ck.engine_stat("mixer", **stats)
     ck.cov["rule"] = ("corpus modules with <= 8 (thorough: 32) channels, random rate / interpolation / separation; per module: full render, one solo render per channel, all-muted, master volume 0, "
                       "separation +s / -s / 0; per frame the 32-bit accumulator buffer (s->buf32), the PCM and every live voice's vol/pan/gains are read from the private mixer state; "
